@@ -9,8 +9,12 @@ structure S where
   ledger : Key → Val
   keys : List String                 -- key universe for dumps (sorted)
   subs : List (String × Bool)        -- submitted syms (true = record stored)
+  disabled : List String := []       -- methods the configuration in force disables (Go names)
 
-def init : S := ⟨fun _ => "", [], []⟩
+def init : S := ⟨fun _ => "", [], [], []⟩
+
+def goName (m : String) : String :=
+  if m = "script" then "TxScript" else if m = "scriptNS" then "TxScriptNS" else if m = "transfer" then "TxTransfer" else m
 
 def parseStep (st : String) : Option Step :=
   match st.splitOn ":" with
@@ -94,6 +98,10 @@ def step (useCache : Bool) (s : S) : List String → S × String
     | none => (s, "bad-op")
   | ["submit", sym, method, sender, script] =>
     if s.subs.any (·.1 = sym) then (s, "bad-op") else
+    -- an id with an odd number of hex digits is no transaction id: refused, nothing recorded
+    if sym.startsWith "O" then ({ s with subs := (sym, false) :: s.subs }, "err keys=0") else
+    -- a disabled method is refused like an unknown one
+    if s.disabled.contains (goName method) then ({ s with subs := (sym, false) :: s.subs }, "err keys=0") else
     if known method then
       -- an id submitted in upper-case hex is stored under that spelling; batches look ids up in
       -- lower case, so the record is never found: it is kept under a key no batch computes
@@ -112,10 +120,13 @@ def step (useCache : Bool) (s : S) : List String → S × String
       | _ => none)
     if parsed.length ≠ ts.length then (s, "bad-op") else
     -- a method without a sender parameter cannot be a task: refused before anything runs
-    let p := tasksProg (fun m => m = "script" || m = "transfer") parsed
+    let p := tasksProg (fun m => (m = "script" || m = "transfer") && !s.disabled.contains (goName m)) parsed
     let r := runProg useCache s.ledger p
     let fix := (parsed.zip r.2).map (fun (t, resp) => if t.1 = "scriptNS" then Resp.err "nosender" else resp)
     ({ s with ledger := r.1, keys := addKeys s (parsed.flatMap (fun t => scriptKeys t.2)) }, joinOr " | " (fix.map showResp))
+  -- re-initialisation with some methods disabled: pending requests stay; a batch listing them
+  -- consumes them all the same
+  | ["disable", ms] => ({ s with disabled := if ms = "-" then [] else ms.splitOn "+" }, "ok")
   | ["ledger"] => (s, dump s)
   | _ => (s, "bad-op")
 
